@@ -5,6 +5,7 @@ Neuroglancer specifications (compressed_segmentation, sharded v1,
 precomputed mesh), not from this package.  Closed-world on constants, open-
 world on shape: an expression that cannot be located is UNDECIDED."""
 import ast
+import re
 
 from .core import (ftext, AnalysisError, dotted, norm, walk_local, const_int,
                    stmts_of, calls_in, call_name, kwarg,
@@ -231,7 +232,11 @@ def _cseg_layout(repo, col):
         for g in ("gx", "gy", "gz"):
             ds = def_values(m, fn.node, g, defs)
             c = _canon(ds[0]) if ds else None
-            ok = bool(c) and c.startswith("CEILDIV(") and "block_size[" in c
+            # ceil(<array>.shape[k] / <block>[j]) with j the axis of g
+            j = "xyz".index(g[1])
+            ok = bool(c) and re.match(
+                r"^CEILDIV\(.+\.shape\[\d\], [A-Za-z_][A-Za-z_0-9.]*\[%d\]\)$"
+                % j, c) is not None
             col.add(rule + ".grid", fn, "%s = %s" % (g, c), ok,
                     "" if ok else "grid size %s is not ceil(extent / block "
                     "size)" % g, undecided=not ds or c is None)
@@ -594,9 +599,18 @@ def routing_bits(repo, col):
         t = [norm(x) for x in terms]
         hi = [x for x in terms if isinstance(x, ast.BinOp)
               and isinstance(x.op, ast.LShift)]
+        # the per-minishard counter: the attribute append() increments
+        cnt = "self._appended"
+        appf = repo.func("sharded_file_accessor", "MiniShard.append")
+        incs = [norm(x.target) for x in stmts_of(appf.node)
+                if isinstance(x, ast.AugAssign) and isinstance(x.op, ast.Add)
+                and norm(x.target).startswith("self.")
+                and "1" in norm(x.value)]
+        if len(incs) == 1:
+            cnt = incs[0]
         lo = [x for x in t if x in (
-            "self._appended & self.shard_spec.preshift_mask",
-            "self.shard_spec.preshift_mask & self._appended")]
+            "%s & self.shard_spec.preshift_mask" % cnt,
+            "self.shard_spec.preshift_mask & %s" % cnt)]
         mid = [x for x in t if x == "self.masked_bits"]
         okhi = False
         if hi:
@@ -605,8 +619,7 @@ def routing_bits(repo, col):
             okhi = sh == canon_src("self.shard_spec.preshift_bits + "
                                    "self.shard_spec.shard_bits + "
                                    "self.shard_spec.minishard_bits") and \
-                norm(h.left) == "self._appended >> " \
-                "self.shard_spec.preshift_bits"
+                norm(h.left) == "%s >> self.shard_spec.preshift_bits" % cnt
         ok = len(terms) == 3 and okhi and bool(lo) and bool(mid)
     col.add(rule + ".next-id", nx, "three disjoint bit ranges", ok,
             "high part [p+m+s, ..), fixed routing bits [p, p+m+s), low part "
